@@ -135,6 +135,24 @@ fn extract_cast_info(
     }
 }
 
+/// A cast that drops fractional digits of a decimal (to an integer type or to a
+/// decimal with a smaller scale) is not injective: `CAST(-1.50 AS INT) >= -1`
+/// holds although `-1.50 >= -1.00` does not, so the cast must stay.
+fn is_decimal_scale_narrowing_cast(inner_type: &DataType, cast_type: &DataType) -> bool {
+    let scale_of = |dt: &DataType| match dt {
+        DataType::Decimal32(_, s)
+        | DataType::Decimal64(_, s)
+        | DataType::Decimal128(_, s)
+        | DataType::Decimal256(_, s) => Some(*s),
+        _ => None,
+    };
+    match (scale_of(inner_type), scale_of(cast_type)) {
+        (Some(from), Some(to)) => to < from,
+        (Some(from), None) => from > 0 && cast_type.is_integer(),
+        _ => false,
+    }
+}
+
 /// Try to unwrap a cast in comparison by moving the cast to the literal
 fn try_unwrap_cast_comparison(
     inner_expr: Arc<dyn PhysicalExpr>,
@@ -148,6 +166,7 @@ fn try_unwrap_cast_comparison(
 
     if is_timestamp_precision_narrowing_cast(&inner_type, cast_type)
         || is_date_narrowing_cast(&inner_type, cast_type)
+        || is_decimal_scale_narrowing_cast(&inner_type, cast_type)
     {
         return Ok(None);
     }
